@@ -29,7 +29,10 @@ CONSTANTS HandlerBase,    \* dispatcher's own steps without actions (C03)
 
 Rec == ndJsonDeserialize(IOEnv.TRACE)
 
-VARIABLES donefr,   \* finished deliveries of the run: set of [sig, init, ran] (bulk removal is atomic)
+VARIABLES stale,    \* signal -> handler kind that was replaced by other code while the first registration
+                    \* of the signal was under way (upstream's documented race: may be chained to until
+                    \* that registration returns)
+          donefr,   \* finished deliveries of the run: set of [sig, init, ran] (bulk removal is atomic)
           usig,     \* open unregister_signal calls: set of <<thread, signal>>
           tainted,  \* a destructor of captured state panicked while an old version was being freed
                     \* (the rest of that version is leaked by the unwinding, as with any Rust
@@ -37,7 +40,7 @@ VARIABLES donefr,   \* finished deliveries of the run: set of [sig, init, ran] (
           l, acts, frames, dropped, usedIds, before, libDisp, prevKind,
           live, cur, replaced, held, everFreed, viol
 
-vars == <<donefr, usig, tainted, l, acts, frames, dropped, usedIds, before, libDisp, prevKind,
+vars == <<stale, donefr, usig, tainted, l, acts, frames, dropped, usedIds, before, libDisp, prevKind,
           live, cur, replaced, held, everFreed, viol>>
 
 R == Rec[l]
@@ -65,7 +68,7 @@ InitState ==
     /\ held = {}
     /\ everFreed = {}
     /\ viol = {}
-    /\ usig = {} /\ tainted = FALSE /\ donefr = {}
+    /\ usig = {} /\ tainted = FALSE /\ donefr = {} /\ stale = [x \in {} |-> ""]
 
 TInit == l = 1 /\ InitState
 
@@ -75,7 +78,7 @@ Quiescent == DOMAIN frames = {} /\ held = {}
 
 \* A run starts: everything back to the initial state; the scenario's previous dispositions.
 TReset ==
-    /\ Ev("reset") /\ usig' = {} /\ tainted' = FALSE /\ donefr' = {}
+    /\ Ev("reset") /\ usig' = {} /\ tainted' = FALSE /\ donefr' = {} /\ stale' = [x \in {} |-> ""]
     /\ acts' = [g \in {} |-> 0] /\ frames' = [f \in {} |-> 0] /\ dropped' = {}
     /\ usedIds' = {} /\ before' = {} /\ libDisp' = {}
     /\ prevKind' = IF "prev" \in DOMAIN R
@@ -88,10 +91,11 @@ TReset ==
     /\ held' = {} /\ everFreed' = {}
     /\ viol' = viol \cup Flag(l > 1 /\ ~Quiescent /\ viol = {}, "not_quiescent_at_end")
 
-Keep(vs) == UNCHANGED vs /\ UNCHANGED <<usig, tainted, donefr>>
-Keep2(vs) == UNCHANGED vs /\ UNCHANGED <<tainted, donefr>>   \* for the actions that change usig
-Keep3(vs) == UNCHANGED vs /\ UNCHANGED <<usig, donefr>>      \* for the action that changes tainted
-Keep4(vs) == UNCHANGED vs /\ UNCHANGED <<usig, tainted>>     \* for the action that changes donefr
+Keep(vs) == UNCHANGED vs /\ UNCHANGED <<usig, tainted, donefr, stale>>
+Keep2(vs) == UNCHANGED vs /\ UNCHANGED <<tainted, donefr, stale>>   \* for the actions that change usig
+Keep3(vs) == UNCHANGED vs /\ UNCHANGED <<usig, donefr, stale>>      \* for the action that changes tainted
+Keep4(vs) == UNCHANGED vs /\ UNCHANGED <<usig, tainted, stale>>     \* for the action that changes donefr
+Keep5(vs) == UNCHANGED vs /\ UNCHANGED <<usig, tainted, donefr>>    \* for the actions that change stale
 
 TCallReg ==
     /\ Ev("call_reg")
@@ -115,7 +119,8 @@ TRetReg ==
     /\ usedIds' = usedIds \cup {R.id}
     /\ viol' = viol \cup Flag(R.id \in usedIds \/ R.id = 0, "id_reused")
                     \cup Flag(R.tag \in dropped /\ acts[R.tag].st # "removing", "dropped_while_registered")
-    /\ Keep(<<frames, dropped, before, libDisp, prevKind, live, cur, replaced, held, everFreed>>)
+    /\ stale' = [x \in DOMAIN stale \ {acts[R.tag].sig} |-> stale[x]]
+    /\ Keep5(<<frames, dropped, before, libDisp, prevKind, live, cur, replaced, held, everFreed>>)
 
 \* A registration that failed (error or the documented panic): nothing is registered and the
 \* would-be action has been released by the caller's thread.
@@ -226,6 +231,7 @@ TDeliver ==
     /\ frames' = Put(frames, F,
           [sig |-> R.sig, id |-> R.id, must |-> TagsOf(R.sig, {"active"}),
            init |-> TagsOf(R.sig, {"active"}),
+           lenient |-> R.sig \in DOMAIN stale,    \* began inside upstream's documented race window
            may |-> TagsOf(R.sig, {"registering", "active", "removing", "maybe"}),
            ran |-> << >>, inAct |-> 0, prev |-> 0])
     /\ viol' = viol \cup Flag(R.sig \notin libDisp, "delivery_before_takeover_by_harness")
@@ -241,7 +247,9 @@ TPrev ==
                  \cup Flag(f.prev >= 1, "prev_twice")
                  \cup Flag(f.ran # << >> \/ f.inAct # 0, "prev_after_action")
                  \cup Flag(R.sig # f.sig, "prev_wrong_signal")
-                 \cup Flag(R.conv # Conv(PrevOf(f.sig)), "prev_convention")
+                 \cup Flag(R.conv # Conv(PrevOf(f.sig))
+                           /\ ~(f.lenient /\ f.sig \in DOMAIN stale /\ R.conv = Conv(stale[f.sig]))
+                           /\ ~(f.lenient /\ f.sig \notin DOMAIN stale), "prev_convention")
                  \cup Flag(R.conv = "info" /\ R.id # f.id, "prev_arguments")
        ELSE /\ Keep(frames) /\ viol' = viol \cup {"prev_outside_delivery"}
     /\ Keep(<<acts, dropped, usedIds, before, libDisp, prevKind, live, cur, replaced, held,
@@ -260,7 +268,7 @@ TActBegin ==
             \cup Flag(g \notin f.may, "not_registered_during_delivery")
             \cup Flag(acts[g].sig # f.sig, "wrong_signal")
             \cup Flag(f.inAct # 0, "actions_overlap_in_one_delivery")
-            \cup Flag(IsHandler(PrevOf(f.sig)) /\ f.prev = 0, "prev_missing_before_action")
+            \cup Flag(~f.lenient /\ IsHandler(PrevOf(f.sig)) /\ f.prev = 0, "prev_missing_before_action")
     /\ Keep(<<acts, dropped, usedIds, libDisp, prevKind, live, cur, replaced, held, everFreed>>)
 
 TActEnd ==
@@ -276,8 +284,8 @@ TReturn ==
        /\ frames' = Del(frames, F)
        /\ viol' = viol
             \cup Flag(f.must \ Range(f.ran) # {}, "registered_action_did_not_run")
-            \cup Flag(IsHandler(PrevOf(f.sig)) /\ f.prev # 1, "prev_not_exactly_once")
-            \cup Flag(~IsHandler(PrevOf(f.sig)) /\ f.prev # 0, "prev_unexpected")
+            \cup Flag(~f.lenient /\ IsHandler(PrevOf(f.sig)) /\ f.prev # 1, "prev_not_exactly_once")
+            \cup Flag(~f.lenient /\ ~IsHandler(PrevOf(f.sig)) /\ f.prev # 0, "prev_unexpected")
             \cup Flag(\E h \in held : h[1] = R.t /\ h[2] = R.d, "guard_outlives_delivery")
             \cup Flag(R.locks > 0, "handler_lock")
             \cup Flag(R.hints > 0, "handler_hint")
@@ -385,15 +393,29 @@ TStuck ==
     /\ Keep(<<acts, frames, dropped, usedIds, before, libDisp, prevKind, live, cur, replaced, held,
               everFreed>>)
 
+\* Other code of the process replaced the signal's handler before the library took it over: that
+\* one is what the library displaces and has to chain to.
+KindOf(k) == CASE k = 1 -> "plain" [] k = 2 -> "info" [] k = 3 -> "plainR" [] k = 4 -> "infoR" [] OTHER -> "ign"
+TForeign ==
+    /\ Ev("foreign_install")
+    /\ prevKind' = [s \in DOMAIN prevKind \cup {R.sig} |-> IF s = R.sig THEN KindOf(R.k) ELSE prevKind[s]]
+    \* lib.rs:608-610 (documented): if the first registration of the signal is under way, the handler
+    \* detected earlier may still be chained to until the slot is installed
+    /\ stale' = IF \E g \in Tags : acts[g].sig = R.sig /\ acts[g].st = "registering"
+                THEN [x \in DOMAIN stale \cup {R.sig} |-> IF x = R.sig THEN PrevOf(R.sig) ELSE stale[x]]
+                ELSE stale
+    /\ viol' = viol \cup Flag(R.sig \in libDisp, "delivery_before_takeover_by_harness")
+    /\ Keep5(<<acts, frames, dropped, usedIds, before, libDisp, live, cur, replaced, held, everFreed>>)
+
 TSkip ==
-    /\ l <= Len(Rec) /\ R.e \in {"unreg_unknown"} /\ l' = l + 1
+    /\ l <= Len(Rec) /\ R.e \in {"unreg_unknown", "foreign_skipped"} /\ l' = l + 1
     /\ Keep(<<acts, frames, dropped, usedIds, before, libDisp, prevKind, live, cur, replaced, held,
               everFreed, viol>>)
 
 TNext == TReset \/ TCallReg \/ TRetReg \/ TRetRegFail \/ TCallUnreg \/ TRetUnreg \/ TRetUnregPanic
          \/ TCallUnregSig \/ TRetUnregSig \/ TDispLib \/ TDeliver \/ TPrev \/ TActBegin
          \/ TActEnd \/ TReturn \/ TActDrop \/ TAlloc \/ TPublish \/ TOpen \/ TClose \/ TFree
-         \/ TDone \/ TFinal \/ TFinalNext \/ TStuck \/ TSkip
+         \/ TDone \/ TFinal \/ TFinalNext \/ TStuck \/ TSkip \/ TForeign
 
 TraceSpec == TInit /\ [][TNext]_vars
 
